@@ -182,7 +182,8 @@ JOBS = {
 }
 
 JOBS_BASE.update({k: v for k, v in JOBS.items()})
-JOBS["C01"] = JOBS["C01"] + derived(["MC_HeaderDecode", "MC_MsgDecode", "MC_KeyDecode", "MC_Cwt", "MC_Kdf"])
+# (C01 pushes every wire through all 36 entry points with follow-ups: the quick bounds of the decode instances in both tiers)
+JOBS["C01"] = JOBS["C01"] + [dict(j, thorough=j["quick"]) for j in derived(["MC_HeaderDecode", "MC_MsgDecode", "MC_KeyDecode", "MC_Cwt", "MC_Kdf"])]
 for _p in ("C07", "C13"):
     JOBS[_p] = JOBS[_p] + derived(["MC_HeaderDecode", "MC_MsgDecode", "MC_KeyDecode", "MC_Cwt", "MC_Kdf"] + (["MC_Tag"] if _p == "C07" else []))
 
